@@ -104,7 +104,7 @@ func runC08Interleave(seed int64, n int) {
 				break
 			}
 			// the next occurrence of this kind of operation that does something in its pre-state
-			for try := 0; try < 6; try++ {
+			for try := 0; try < 15; try++ {
 				c, found := pool.Take(kind)
 				if !found {
 					break
@@ -135,6 +135,35 @@ func rival(pool *casePool, w *hx.Op) *hx.Op {
 		of := strings.Fields(o.Tok)
 		n := 0
 		for n < len(wf) && n < len(of) && wf[n] == of[n] {
+			n++
+		}
+		if n > bestN {
+			best, bestN = o, n
+		}
+	}
+	return best
+}
+
+// rivalTail is the counterpart for operations whose contended place is their LAST argument (a
+// rename onto / a move into the same destination from a different source): the generated
+// operation of the same name sharing the longest run of trailing arguments but not the first one.
+func rivalTail(pool *casePool, w *hx.Op) *hx.Op {
+	wf := strings.Fields(w.Tok)
+	if len(wf) < 3 {
+		return nil
+	}
+	var best *hx.Op
+	bestN := 0
+	for _, o := range pool.Ops[w.Name] {
+		if o.Tok == w.Tok || len(o.RelTTL) > 0 {
+			continue
+		}
+		of := strings.Fields(o.Tok)
+		if len(of) != len(wf) || of[1] == wf[1] {
+			continue
+		}
+		n := 0
+		for n < len(wf)-2 && wf[len(wf)-1-n] == of[len(of)-1-n] {
 			n++
 		}
 		if n > bestN {
@@ -201,6 +230,9 @@ func c08InterleaveCase(dir string, pool *casePool, ci int, dbNoP *int, c opCase)
 		}
 		if rv := rival(pool, w); rv != nil && rv != same && rv != next {
 			xs = append(xs, ilX{"rival", rv})
+		}
+		if rv := rivalTail(pool, w); rv != nil && rv != next {
+			xs = append(xs, ilX{"rival-for-the-destination", rv})
 		}
 		_ = same
 		// a second call of the very same operation (e.g. two SETNX-style calls racing) is always tried
